@@ -126,7 +126,7 @@ theorem C04_state_monotone {s s' : St} (h : Reach c s) (hs : Step c s s') (t : T
     (try simp only [upd, Queuer.live] at *) <;> (try grind [TS.rank, TS.isBuilt])
 
 /-- a chain 1 → 0 -/
-def chain2 : Cfg := ⟨2, fun t => if t = 1 then [0] else [], true⟩
+def chain2 : Cfg := { n := 2, deps := fun t => if t = 1 then [0] else [], needBuild := true }
 
 /-- target 1 requested; its queuer activates 0; 0 is queued, dispatched, built; 1's queuer passes its wait, 1 is
     queued, dispatched and built; every goroutine finishes and `numPending` reaches 0 -/
